@@ -167,14 +167,18 @@ def _run_pipe(case, T, MM):
     IE._evaluate_instance = kernel
 
     def decode(m):
-        return {"what": "pipe", "dm": dm, "k": k, "up": up, "ur": ur, "thr": jsonable(thr, m),
+        return {"what": "pipe", "dm": dm, "k": k, "up": up, "ur": ur, "thr": jsonable(thr, m), "unused_matcher": bool(jsonable(z3.Bool("unused_matcher_configured"), m)),
                 "vals": {mm: [jsonable(v, m) for v in vals[mm]] for mm in METRICS}}
     h = H(PROP, case["name"], decode, replay_kind="pipe", max_witnesses=12)
 
     def body():
         pair = PP.MatchedInstancePair(SArr(list(pred), "uint8").protect("caller prediction"), SArr(list(ref), "uint8").protect("caller reference"))
         try:
-            res, _ = PE.panoptic_evaluate(pair, instance_metrics=eval_metrics, global_metrics=[], decision_metric=None if dm is None else getattr(Metric, dm),
+            # option combination: a matcher that the matched input never uses may be configured alongside (metric = decision metric, threshold 1/2)
+            unused = None
+            if bool(SBool(z3.Bool("unused_matcher_configured"))):
+                unused = T.panoptica.NaiveThresholdMatching(getattr(Metric, dm) if dm else Metric.IOU, 0.5)
+            res, _ = PE.panoptic_evaluate(pair, instance_matcher=unused, instance_metrics=eval_metrics, global_metrics=[], decision_metric=None if dm is None else getattr(Metric, dm),
                                           decision_threshold=None if dm is None else SNum(thr), verbose=False)
         except EngineSignal:
             raise
@@ -305,6 +309,9 @@ def real_pipe(case, mode, expect):
     mets = ["DSC", "IOU", "RVD"] + (["ASSD"] if case["dm"] == "ASSD" else [])
     cfg = {"input_type": "MATCHED_INSTANCE", "metrics": mets, "decision_metric": case["dm"], "decision_threshold": arrs["thr"], "global_metrics": []}
     ev = RC.build_evaluator(cfg)
+    if case.get("unused_matcher"):
+        from panoptica import NaiveThresholdMatching, Metric
+        ev._set_instance_matcher(NaiveThresholdMatching(getattr(Metric, case["dm"]) if case["dm"] else Metric.IOU, 0.5))
     try:
         res = ev.evaluate(np.array(arrs["pred"], dtype=np.uint8), np.array(arrs["ref"], dtype=np.uint8), verbose=False)["ungrouped"][0]
         o = RC.result_to_dict(res, mets)
